@@ -62,6 +62,8 @@ type gengoCtx struct {
 
 	ignore  bool
 	sumFile *sumfile.File
+	// directory the previous gengo.sum was looked for in (set even when there was none to read)
+	sumDir string
 
 	defers []func(ctx Context) error
 
@@ -99,6 +101,7 @@ func (c *gengoCtx) Execute(ctx corecontext.Context, generators ...Generator) err
 				mod := c.universe.Package(pkgPath).Module()
 				if mod != nil {
 					c.sumFile, _ = sumfile.Load(mod.Dir)
+					c.sumDir = mod.Dir
 				}
 				break
 			}
@@ -120,6 +123,10 @@ func (c *gengoCtx) Execute(ctx corecontext.Context, generators ...Generator) err
 
 		if c.sumFile != nil {
 			sumFile.Dir = c.sumFile.Dir
+		} else if c.sumDir != "" {
+			// nothing was read (first run, deleted or unreadable file): still save where the next run will
+			// look, which for a run over several modules need not be the module the universe defaults to
+			sumFile.Dir = c.sumDir
 		}
 
 		return sumFile.Save()
